@@ -255,6 +255,7 @@ func init() {
 			pcases = append(pcases, c)
 			r.Dist["bracket-mode-after-loop"]++
 		}
+		pcases = append(pcases, twoIndexCases(r)...)
 		runSessions(r, pcases, outputDiffers)
 		// (the parser oracle skips prefixes that contain a keyword; stated directly on the real engine: the prefix is what
 		// stands between the prefix keyword and the LAST suffix keyword of the tag, the suffix what follows that one)
@@ -290,6 +291,7 @@ func init() {
 			c, _ := genCase(r, cfg)
 			cases = append(cases, c)
 		}
+		cases = append(cases, twoIndexCases(r)...)
 		// the same conditions inside loops (indexed operands `x[i].f` on either side exist only there)
 		cfgL := GenCfg{MaxDepth: 3, MaxNodes: 14, Switch: true, Ternary: true, Loops: true}
 		for i := 0; i < r.N(1500, 50000); i++ {
@@ -876,6 +878,7 @@ func init() {
 			}
 		}
 		dyntpl.VerifResetRegistry()
+		includeNameBlanks(r)
 	}
 }
 
@@ -910,6 +913,30 @@ func loopVarNames(r *Run) {
 			}
 		}
 	}
+}
+
+// twoIndexCases: paths with TWO bracketed indexes inside counter loops — a field chosen by a variable and an element
+// chosen by the counter, two counters of nested loops, an index that is not set, an index without a value — in print
+// tags, comparisons (either side), len(), ctx sources and modifier arguments: every pair is substituted, left to right.
+func twoIndexCases(r *Run) []*RCase {
+	var out []*RCase
+	usr := UserSpec{Id: "u", HasFinance: true, History: []History{{1, 1.5, "c0"}, {2, 2.5, "c1"}, {3, 3.5, "c2"}}}
+	for _, loop := range []string{`{% for i := 0; i < 3; i++ %}`, `{% for j := 0; j < 2; j++ %}{% for i := 2; i >= j; i-- %}`, ``} {
+		end := strings.Repeat(`{% endfor %}`, strings.Count(loop, `{% for`))
+		for _, body := range []string{`{%= user[part].History[i].Cost %};`, `{%= user[part][fld][i].Comment pfx < sfx > %}`, `{% if user[part].History[i].Cost > 2 %}G{% else %}L{% endif %}`,
+			`{% if 2 < user[part].History[i].Cost %}G{% else %}L{% endif %}`, `{%= user[part].History[i].Cost > 2 ? user[part].History[i].Comment : user.Id %},`,
+			`{% switch user[part].History[i].Comment %}{% case "c1" %}one{% default %}other{% endswitch %}`, `{% ctx q = user[part].History[i].Comment %}{%= q %}.`,
+			`{%= e|default(user[part].History[i].Comment) %},`, `{%= user[nokey].History[i].Cost %}|`, `{%= user[part].History[nokey].Cost %}|`, `{%= lst[i][i] %}|`, `{%= user[part].History[i][i] %}|`,
+			`{% if len(user[part][fld]) > 2 %}T{% endif %}`, `{%= user[part].History[i].Cost %}{%= user[part].History[j].Comment %};`} {
+			src := loop + body + end + `|{%= user.Id %}`
+			c := &RCase{Tpls: []TplDef{{Key: "main", Src: src, KeepFmt: true}}, Meta: map[string]any{"two-index-path": body, "loop": loop}}
+			c.Ops = []SOp{{Kind: "static", Name: "fld", Val: "History"}, {Kind: "static", Name: "part", Val: "Finance"}, {Kind: "static", Name: "e", Val: ""}, {Kind: "strs", Name: "lst", Val: []string{"p", "q", "r"}},
+				{Kind: "obj", Name: "user", Val: usr}, {Kind: "render", Key: "main"}, {Kind: "render", Key: "main"}}
+			out = append(out, c)
+			r.Dist["two-index-path"]++
+		}
+	}
+	return out
 }
 
 // indexedRangeSource: a relation on the real engine alone (maps under StringAnyMapInspector are not in the model) —
@@ -998,6 +1025,48 @@ func c14Spellings(r *Run) {
 			if ppan != "" || perr == nil {
 				r.Violate(sig, "a loop-control tag with unrecognised text after its depth is accepted by Parse (it runs as the unconditional instruction)", map[string]any{"source": src, "panic": ppan})
 			}
+		}
+	}
+}
+
+// includeNameBlanks: the names of an include tag are separated by blanks — one or several: `{% include  a %}` lists
+// the name `a` and nothing else, also when a template is registered under the empty key (a doubled blank used to add
+// an empty name to the list, which found that template first). A relation on the real engine alone.
+func includeNameBlanks(r *Run) {
+	defer dyntpl.VerifResetRegistry()
+	dyntpl.VerifResetRegistry()
+	reg := func(key, src string) bool {
+		t, err, pan := parseSafe([]byte(src), true)
+		if err != nil || pan != "" {
+			return false
+		}
+		dyntpl.RegisterTplKey(key, t)
+		return true
+	}
+	if !reg("", "EMPTY-KEY") || !reg("nb/a", "A") || !reg("nb/b", "B") {
+		r.Internal("C16 include blanks: bodies do not parse")
+		return
+	}
+	for _, pair := range [][2]string{{"[{% include nb/a %}]", "[{% include  nb/a %}]"}, {"[{% . nb/a %}]", "[{% .   nb/a %}]"}, {"[{% include nb/nope nb/b %}]", "[{% include nb/nope  nb/b %}]"},
+		{"[{% include nb/nope nb/b %}]", "[{% include  nb/nope   nb/b %}]"}, {"[{% include nb/nope nb/none %}]", "[{% include  nb/nope  nb/none %}]"},
+		{"{% for i := 0; i < 2; i++ %}[{% include nb/a %}]{% endfor %}", "{% for i := 0; i < 2; i++ %}[{% include  nb/a %}]{% endfor %}"}} {
+		var outs [2]rendered
+		bad := ""
+		for k := 0; k < 2; k++ {
+			key, err, pan := regTpl(pair[k], true)
+			if err != nil || pan != "" {
+				bad = fmt.Sprintf("Parse rejects %s: %v %s", pair[k], err, pan)
+				break
+			}
+			outs[k] = renderSafe(key, dyntpl.NewCtx())
+		}
+		sig := "include-name-blanks " + pair[1]
+		r.Count(sig, true)
+		r.Dist["include-name-blanks"]++
+		if bad != "" || outs[0].ErrStr() != outs[1].ErrStr() || !bytes.Equal(outs[0].Out, outs[1].Out) {
+			r.Violate(sig, "an include tag written with several blanks between its names renders something else than the same tag written with one",
+				map[string]any{"one_blank": pair[0], "several_blanks": pair[1], "one_blank_output": string(outs[0].Out), "several_blanks_output": string(outs[1].Out), "one_blank_error": outs[0].ErrStr(), "several_blanks_error": outs[1].ErrStr(),
+					"registered": []string{`"" -> EMPTY-KEY`, `nb/a -> A`, `nb/b -> B`}, "problem": bad})
 		}
 	}
 }
